@@ -3,6 +3,7 @@ package props
 import (
 	"errors"
 	"fmt"
+	"time"
 
 	"github.com/gorilla/websocket"
 	"pgregory.net/rapid"
@@ -18,6 +19,11 @@ type CtlCase struct {
 	Handlers string `json:"handlers"`
 	// FailAt: index of the control frame whose handler returns an error.
 	FailAt int `json:"fail_at"`
+	// LocalClose: the application has sent its own close frame before it
+	// reads (locally initiated closing handshake): nothing can be written back
+	// any more, but frames must still reach the handlers and reads must end
+	// with the CloseError of the received close.
+	LocalClose bool `json:"local_close,omitempty"`
 }
 
 var errHandler = errors.New("harness: handler says no")
@@ -39,6 +45,7 @@ func genCtlCase(t *rapid.T) CtlCase {
 	c.EOFWith = rapid.Bool().Draw(t, "eof_with_last_bytes")
 	c.Handlers = rapid.SampledFrom([]string{"default", "default", "custom", "fail"}).Draw(t, "handlers")
 	c.FailAt = rapid.IntRange(0, 6).Draw(t, "fail_at")
+	c.LocalClose = rapid.IntRange(0, 4).Draw(t, "local_close") == 0
 	return c
 }
 
@@ -62,6 +69,12 @@ func checkC08(c CtlCase, o *Obs) error {
 		h.failAt = c.FailAt
 	}
 	h.install(conn)
+	localClose := websocket.FormatCloseMessage(1001, "bye")
+	if c.LocalClose {
+		if err := conn.WriteControl(websocket.CloseMessage, localClose, time.Time{}); err != nil {
+			return fmt.Errorf("WriteControl(close) failed: %v", err)
+		}
+	}
 	lens := make([]int, len(model.Msgs))
 	for i, m := range model.Msgs {
 		lens[i] = len(m.Payload)
@@ -177,6 +190,17 @@ func checkC08(c CtlCase, o *Obs) error {
 	}
 
 	// replies
+	if c.LocalClose {
+		// after the local close frame nothing may be written (C09); the wire is that frame alone
+		want := wsref.AppendFrame(nil, wsref.Frame{Fin: true, Opcode: wsref.OpClose, Payload: localClose})
+		frames, _, derr := wsref.DecodeFrames(tr.Wrote, !c.R.Server)
+		if derr != nil || len(frames) != 1 || frames[0].Opcode != wsref.OpClose || string(frames[0].Payload) != string(localClose) {
+			return fmt.Errorf("after a locally sent close frame the wire must hold that frame only; wrote %d bytes (%d frames, err %v), reference frame %d bytes", len(tr.Wrote), len(frames), derr, len(want))
+		}
+		o.Class("local_close_first")
+		o.NonTrivial("")
+		return nil
+	}
 	var pongs [][]byte
 	closeCode := -1
 	for i := 0; i < expectEvents; i++ {
